@@ -18,7 +18,7 @@ RULE = (
     "program with a node nested under a list, or produced by an operator from a parent; distinct by (canonical program, op)."
 )
 ASSUMPTIONS = [
-    "tree-depth mode only (docs: in expansion mode only the distance of actual objects can be read)",
+    "general grammars are judged in tree-depth mode; expansion_depthing=True is judged on grammars whose fields are all class-typed, where the measure is unambiguous: one node and one level per production, plus one per step from a field's declared abstract type down the class hierarchy to the production used (a field-less production counts one level)",
     "conventions pinned by the repository's tests: a field-less node has distance 0, a node with only builtin fields has distance 1",
     "only class instances are judged (lists carry labels too but the statement speaks about nodes)",
     "stack-representation programs are outside the anchored code (they are built without the tree generator)",
